@@ -30,13 +30,21 @@ mod tree;
 mod wrappers;
 
 mod ext;
+#[cfg(feature = "cps")]
 mod cmd_cps;
+#[cfg(feature = "reason")]
 mod cmd_reason;
+#[cfg(feature = "segment")]
 mod cmd_segment;
+#[cfg(feature = "macro")]
 mod cmd_macro;
+#[cfg(feature = "tree")]
 mod cmd_tree;
+#[cfg(feature = "prover")]
 mod cmd_prover;
+#[cfg(feature = "oracle")]
 mod cmd_oracle;
+#[cfg(feature = "py")]
 mod cmd_py;
 
 use std::io::{self, BufRead, Write};
